@@ -122,7 +122,7 @@ def modelAnswers (a : Ann) : Json :=
           [("isbuiltinsubtype", jOB (isbuiltinsubtypeM lat a)), ("isstdlibsubtype", .bool (isstdlibsubtypeM lat a))]
         else [])    -- issubclass of a types.GenericAlias walks the origin's __bases__: not modelled
     ++ [("isbuiltintype", .bool (isbuiltintypeM lat a)), ("isclassvartype", .bool (isclassvartypeM lat a)),
-        ("isuniontype", .bool (isuniontypeM lat a)), ("isoptionaltype", .bool (isoptionaltypeM lat a)),
+        ("isuniontype", .bool (isuniontypeM lat a)), ("isoptionaltype", jOB (isoptionaltypeM lat a)),
         ("isliteral", .bool (isliteralM lat a)), ("isfinal", .bool (isfinalM lat a)),
         ("should_unwrap", .bool (shouldUnwrapM lat a)), ("isforwardref", .bool (isforwardrefM a)),
         ("istypealiastype", .bool (istypealiastypeM a)), ("isunresolvable", .bool (isunresolvableM lat a)),
